@@ -80,13 +80,14 @@ class LoopSpec:
     havoc: dict path -> factory(ctx) building a fresh symbolic value of the declared shape
     """
 
-    def __init__(self, inv, havoc, kind='auxiliary', unfold=None, name=None, pre=None):
+    def __init__(self, inv, havoc, kind='auxiliary', unfold=None, name=None, pre=None, exit_facts=None):
         self.inv = inv
         self.havoc = havoc
         self.kind = kind
         self.unfold = unfold
         self.name = name
         self.pre = pre          # pre(I, env) -> snapshot stored in env['$pre'] before the havoc
+        self.exit_facts = exit_facts    # exit_facts(I, env, k, it) -> proved lemma instances assumed when the body leaves the loop early (return / raise / break)
 
 
 class Spec:
@@ -881,7 +882,15 @@ class Interp:
             except _Continue:
                 pass
             except _Break:
+                if lspec.exit_facts:
+                    for f in lspec.exit_facts(self, fr.env, k, it):
+                        ctx.assume(f)
                 return      # continue after the loop with the state at the break
+            except (_Return, PyRaise):
+                if lspec.exit_facts:
+                    for f in lspec.exit_facts(self, fr.env, k, it):
+                        ctx.assume(f)
+                raise
             for name, f in lspec.inv(self, fr.env, nxt, it).items():
                 ctx.check('%s.inv.%s.step' % (tag, name), f, lspec.kind,
                           where='%s:%d' % (fr.fi.file, s.lineno))
@@ -2137,6 +2146,8 @@ def _b_isinstance(I, args, kwargs, node):
             names.append(x.name)
         elif isinstance(x, ClassRef):
             names.append(x.name)
+        elif isinstance(x, ModuleRef):
+            names.append(x.name.split('.')[-1])
         else:
             raise Unsupported('isinstance against %r' % (x,))
     def one(nm):
@@ -2343,7 +2354,28 @@ def _b_type(I, args, kwargs, node):
 
 EXTERNALS = {'collections.defaultdict': 'defaultdict'}
 
+def _b_any(I, args, kwargs, node, is_all=False):
+    items = I.concrete_items(args[0])
+    if items is None:
+        raise Unsupported('any/all over a symbolic collection')
+    ts = [I.truthy(x) for x in items]
+    if is_all:
+        if any(t is False for t in ts):
+            return False
+        ts = [to_z3(t) for t in ts if t is not True]
+        return z3.And(*ts) if ts else True
+    if any(t is True for t in ts):
+        return True
+    ts = [to_z3(t) for t in ts if t is not False]
+    return z3.Or(*ts) if ts else False
+
+
+def _b_all(I, args, kwargs, node):
+    return _b_any(I, args, kwargs, node, True)
+
+
 BUILTINS = {
+    'any': _b_any, 'all': _b_all,
     'len': _b_len, 'abs': _b_abs, 'bool': _b_bool, 'set': _b_set, 'list': _b_list, 'dict': _b_dict,
     'print': _b_print, 'isinstance': _b_isinstance, 'str': _b_str, 'tuple': _b_tuple,
     'enumerate': _b_enumerate, 'zip': _b_zip, 'range': _b_range, 'sum': _b_sum, 'sorted': _b_sorted,
